@@ -190,6 +190,52 @@ def gen_script(rng, max_ops, profile):
                 st.pending_comps.setdefault(h, (set(), set()))[0].add(p)
             else:
                 st.comps[h] = closure(have | {p})
+        elif choice == 'build':
+            # one builder edit: begin(e).remove<R>()... .assign<A>(x)... .end(); assignable types are the static palette 0, 2, 3
+            bpals = [p for p in (0, 2, 3) if p in pals]
+            if not bpals:
+                continue
+            if rng.chance(1, 4):
+                k = rng.range(0, min(2, len(bpals)))
+                cs = sorted(set(rng.pick(bpals) for _ in range(k)))
+                lines.append(('build %d new%s' % (tid, ''.join(' a' * (i == 0) + ' %d %d' % (c, value()) for i, c in enumerate(cs)))).rstrip())
+                if depth:
+                    st.pending_new[st.n] = set(cs)
+                    st.pending_comps.setdefault(st.n, (set(), set()))[0].update(cs)     # assign commands of its pack
+                else:
+                    st.comps[st.n] = closure(cs)
+                    st.shared[st.n] = set()
+                st.n += 1
+                continue
+            h = pick_live()
+            if h is None:
+                continue
+            have = view(h)
+            padd, prem = st.pending_comps.get(h, (set(), set()))
+            acand = [p for p in bpals if p not in closure(have) and p not in prem]
+            k = rng.range(0, min(2, len(acand)))
+            asg = []
+            for _ in range(k):
+                c = rng.pick(acand)
+                if c not in asg:
+                    asg.append(c)
+            rcand = [] if deps else [p for p in sorted(have) if p < 8 and p not in padd and p not in asg]
+            if depth and h in st.pending_new:
+                rcand = []      # its components are assign commands of the same pack (known finding C05/pack-assign-then-remove-same-component)
+            rem = []
+            for _ in range(rng.range(0, min(2, len(rcand)))):
+                c = rng.pick(rcand)
+                if c not in rem:
+                    rem.append(c)
+            if not asg and not rem:
+                continue
+            lines.append('build %d #%d%s%s' % (tid, h, ''.join((' a' if i == 0 else '') + ' %d %d' % (c, value()) for i, c in enumerate(asg)),
+                                              ''.join((' r' if i == 0 else '') + ' %d' % c for i, c in enumerate(rem))))
+            if depth:
+                pc = st.pending_comps.setdefault(h, (set(), set()))
+                pc[0].update(asg); pc[1].update(rem)
+            else:
+                st.comps[h] = closure((set(have) | set(asg)) - set(rem))
         elif choice == 'remove':
             h = pick_live()
             if h is None:
@@ -399,9 +445,9 @@ def gen_script(rng, max_ops, profile):
 
 PROFILE_BASIC = {
     'threads': [0, 0, 1, 2, 3], 'pals': [0, 1, 2, 3, 4, 5, 6, 7], 'chunkcap': [0, 2, 3, 4, 8],
-    'verchunk': [1, 2, 3, 5, 1024], 'deps': 0, 'shared': [], 'createarch': True, 'no_locked_typed_value_aa': True,
+    'verchunk': [1, 2, 3, 5, 1024], 'deps': 0, 'shared': [], 'createarch': True,
     'weights': {'create': 26, 'destroynow': 10, 'destroy': 5, 'assign': 14, 'remove': 9, 'set': 8, 'get': 6,
-                'clone': 3, 'update': 4, 'cleararch': 2, 'lock': 6, 'unlock': 9},
+                'clone': 3, 'update': 4, 'cleararch': 2, 'lock': 6, 'unlock': 9, 'build': 7},
 }
 
 
